@@ -327,6 +327,11 @@ static void *node_main(void *arg) {
   n->invoked = 1;
   int w = myth_get_worker_num();
   MVH_CHECK(w >= 0 && w < P[P_NWORKERS], "C15-WORKER-INDEX", "worker index %d outside [0,%ld)", w, P[P_NWORKERS]);
+  if (n->use_attr && n->stack_bytes > 0) {
+    /* "apart from the requested settings": the stack this thread runs on is at least as large as it asked for */
+    size_t ext = mvsim_ledger_stack_extent(&w);
+    MVH_CHECK(ext == 0 || ext >= (size_t)n->stack_bytes, "C01-STACK-SIZE", "node %d asked for a stack of %ld bytes through its attribute and runs on one of %zu bytes", n->id, (long)n->stack_bytes, ext);
+  }
   body(n);
   n->finished = 1;
   if (n->use_exit) nested_exit(2, n->expect);
